@@ -172,7 +172,10 @@ impl Check {
         let mut n_known = 0u64;
         let _ = std::fs::create_dir_all(format!("{VERIF}/replays"));
         let mut printed = 0;
-        for (sig, v) in &viols {
+        // simplest (shortest signature) first
+        let mut order: Vec<(&String, &Violation)> = viols.iter().collect();
+        order.sort_by_key(|(s, _)| (s.chars().count(), (*s).clone()));
+        for (sig, v) in order {
             if let Some(k) = known.iter().find(|k| k.matches(sig)) {
                 n_known += v.count;
                 lines.push(format!("KNOWN-FINDING: property={} {} [{}] ({} cases)", self.id, k.what, sig, v.count));
